@@ -224,6 +224,27 @@ theorem EqT.var_inj {a b : String} (h : EqT (.var a) (.var b)) : a = b := by
   injection h1 with h1
   exact h1.symm
 
+/-- a node that is exactly equivalent, as an assignment target, to the variable `a` IS that variable -/
+theorem EqT.var_eq {a : String} {e' : Expr} (h : EqT (.var a) e') : e' = .var a := by
+  have h := h ⟨Unit, fun _ => (), fun _ => 0, fun _ _ => (), fun _ _ => (), fun _ _ => (), fun _ _ => (),
+      fun _ _ => (), fun _ _ => (), fun _ _ => (), fun _ => (), fun _ _ => false, fun _ _ => false,
+      fun _ _ => false, fun _ => false, fun _ => (), fun _ => none, fun _ => [], fun _ => none,
+      fun _ => (), fun _ => ()⟩
+    (fun _ _ _ => .timeout) (fun _ _ _ => []) 0 ⟨[], []⟩ ⟨[], [], [], [], []⟩
+  cases e' with
+  | var b =>
+    simp only [evalTarget] at h
+    injection h with h1 _
+    injection h1 with h1
+    rw [h1]
+  | field x n =>
+    simp only [evalTarget, Res.bind] at h
+    split at h <;> simp at h
+  | index x k =>
+    simp only [evalTarget, Res.bind] at h
+    split at h <;> (try split at h) <;> simp at h
+  | _ => simp [evalTarget, errS] at h
+
 /-! ### blocks and statement lists -/
 
 theorem EqSs.of_forall2 {ss ss' : List Stmt} (h : Forall2 EqS ss ss') : EqSs ss ss' := by
